@@ -1,5 +1,5 @@
 """C19 — STUN retransmission timers follow the configured schedule exactly."""
-import vlib
+import vlib, sim_common as sc
 
 META = dict(
     text="Coq theorems (Props/Properties_C19.v) over an executable model of stun_timer_start/remainder/refresh prove, for all T in "
@@ -7,7 +7,8 @@ META = dict(
          "the doubling/halving schedule, the expiry window and the remainder bound; the model is tied to stun/usages/timer.c "
          "on every run by differential execution under an interposed clock plus an independent implementation-side oracle",
     note="trusted: Coq kernel, extraction (ExtrOcamlBasic only), the hand-written model (tied by sampling, not proof), the harness "
-         "with interposed clock_gettime; agent-level clause (black-holed pair abandoned after N transmissions) is outside the theorem",
+         "with interposed clock_gettime; the agent-level clause (black-holed pair abandoned after N transmissions) is outside the theorem: it is "
+         "validated on simulated sessions (reliable and unreliable agents, N in 1..5, every path black-holed; transmissions per transaction counted on the wire)",
     technique="Coq proof over executable model + extracted-model/implementation differential correspondence")
 
 COQ_TARGETS = ["Props/Properties_C19.vo", "Timer/Extract_Timer.vo"]
@@ -19,7 +20,8 @@ FINISH = dict(
              "an interposed clock_gettime",
              "OCaml 4.13.1, gcc 12 + ASan/UBSan, the python generator/oracle in props/C19.py",
              "not modelled: the Windows clock branch and the gettimeofday fallback of stun_gettime; "
-             "agent-level clause (black-holed pair abandoned after the configured count) is covered by the C01/C19 simulator runs only"],
+             "agent-level clause (black-holed pair abandoned after the configured count, RTO doubling from max(500 ms, Ta * pairs)) is validated by "
+             "simulator runs (sim_common.gen_blackhole / oracle_blackhole), not proved"],
     rule="case = (T, N, start instant, non-decreasing poll instants at microsecond resolution); generators: late polls, "
          "polls straddling each deadline by -1001..+1 us, dense early polling, huge gaps, usec carry boundaries; "
          "non-trivial = at least one poll expires the running wait; distinct by canonical case text",
@@ -113,6 +115,8 @@ def nontrivial(line, out):
 
 def prebuild():
     m, o = vlib.ocaml_build("timer_model", "timer_model", ["zutil_z.ml.in", "timer_driver.ml"])
+    if m:
+        m, o = sc.build_sim()
     return None if m else o
 
 
@@ -130,12 +134,20 @@ def run(chk):
                   ("k1 1000 0 0 0 0 999999 1 0 5 0", "corpus"), ("k2 1 16 10 999999 11 0 11 1000 11 1001 11 3000", "corpus")]
         cases = corpus + [gen_case(chk.rng, i) for i in range(n)]
         vlib.correspond(chk, cases, model, impl, oracle=oracle, what="timer", nontrivial=nontrivial)
+    # agent level: every connectivity check on a black-holed pair is transmitted exactly stun-max-retransmissions times, on schedule
+    n = 300 if chk.tier == "quick" else 15000
+    sc.run_sim(chk, [sc.gen_blackhole(chk.rng, i) for i in range(n)], lambda line, evs, meta: sc.oracle_blackhole(evs, meta), "sim-C19")
     return chk.finish(**FINISH)
 
 
 def replay(chk, path):
     import json
     r = json.load(open(path))["replay"]
+    if r.get("case", "").startswith("hole"):
+        sim, o = sc.build_sim()
+        rc, so, se = vlib.run_lines(sim, r["case"] + "\n")
+        print("\n".join(l for l in so.split(" | ") if "blackhole" in l)[:8000])
+        return 0
     impl, o = vlib.cc("timer_h", ["timer_h.c"], ["stun/usages/timer.c"], libs=())
     rc, so, se = vlib.run_lines(impl, r["case"] + "\n")
     print("impl:", so.strip(), "\noracle:", oracle(r["case"], so.strip()))
